@@ -279,7 +279,7 @@ func c01Strings(maxLen int) []string {
 
 var c01Fields = []string{"keyword-last", "taxon-mid", "definition", "accession", "version", "dblink-key", "dblink-value", "keyword", "source", "organism", "taxon",
 	"ref-info", "ref-authors", "ref-group", "ref-title", "ref-journal", "ref-pubmed", "ref-remark", "comment", "extra-value",
-	"qual-quoted", "qual-literal", "locus", "division"}
+	"qual-quoted", "qual-literal", "locus", "division", "contig-accession"}
 
 func trimmedSingleLine(v string) bool {
 	return !strings.Contains(v, "\n") && strings.TrimSpace(v) == v
@@ -313,6 +313,9 @@ func c01Writable(field, v string) bool {
 		return !strings.Contains(v, "\"")
 	case "locus":
 		return v != "" && !strings.ContainsAny(v, " \n\t")
+	case "contig-accession":
+		// written as CONTIG join(<accession>:<range>): one word without the characters of that syntax
+		return v != "" && !strings.ContainsAny(v, " \n\t:(),")
 	case "division":
 		return v == "" || (len(v) == 3 && strings.ToUpper(v) == v && strings.ToLower(v) != v)
 	}
@@ -344,6 +347,8 @@ func c01ApplyField(gbp *seqio.GenBank, field, v string) {
 		f.Definition = v
 	case "accession":
 		f.Accession = v
+	case "contig-accession":
+		f.Contig = seqio.Contig{Accession: v, Region: gts.Segment{0, 24}}
 	case "version":
 		f.Version = v
 	case "dblink-key":
@@ -960,7 +965,8 @@ func init() {
 					eval(c01Case{Kind: "field", Field: f, Value: v}, len(v))
 				}
 				long := strings.Repeat("long words here ", 12) + "end"
-				for _, v := range []string{long, strings.Repeat("x", 90), long + "\n" + long, "semi; colon: and \\ back", "ends with period.", "(bases 1 to 24; 3 to 9)"} {
+				for _, v := range []string{long, strings.Repeat("x", 90), long + "\n" + long, "semi; colon: and \\ back", "ends with period.", "(bases 1 to 24; 3 to 9)",
+					"NC_000913.3", "NZ_CP009273.1", "AB-12.1", "x_", "_"} {
 					if c01Writable(f, v) {
 						eval(c01Case{Kind: "field", Field: f, Value: v}, 500)
 					}
